@@ -30,6 +30,8 @@ Decides:
                     a group whose first member is hidden still yields its commands' sections (shared with C12).
  S listing         render_manpage runs both append_meta calls and write_help_item_groups on every pass of the section loop; append_meta only ever appends
                    to the list of help items (GroupStart / GroupEnd stay paired; shared with C04).
+ P raw pushes      token pairing also covers `self.tokens.push(Token::..)` inside Doc, with "every BlockEnd only after its BlockStart";
+ S info            Item::Command carries a clone of the subparser's own Info (texts and configured help / version flags).
 Does not decide: that the byte loop is a complete roff escaper for every input; markdown well-formedness."""
 import re
 from core import *
